@@ -169,3 +169,139 @@ Example C12_boundary_cxt_labels :
   /\ load_cxt (dump_cxt [[97]; []] [[112]] [[true]; [false]]) = Raise ValueError
   /\ load_cxt (dump_cxt [[97; 13; 98]] [[112]] [[true]]) = Raise KeyError.
 Proof. vm_compute. repeat split; reflexivity. Qed.
+
+(** ** The loaders read the text of a writer written from the format description
+
+    The writers [spec_write_table], [spec_write_cxt], [spec_write_csv_gen] of Spec/FormatSpec.v take every
+    freedom the format descriptions leave as a parameter; the library's loaders recover the triple for
+    ALL values of these parameters (Proofs/FormatsWriters.v). *)
+From Concepts Require Import Proofs.FormatsWriters.
+
+(** table: arbitrary padding on both sides of every name and cell, optional final '|', optional spaces
+    and comment after every line, blank / comment-only lines anywhere.  Comments must not contain a line
+    feed, and [table_edges_ok]: with two or more properties a false first / last cell is at least one
+    space wide and a row ending with a false cell has the final '|' (the boundary examples below show that
+    the library reads a different context otherwise). *)
+Theorem C12_load_reads_spec_writer_table : forall st objs props bools,
+  well_formed objs props bools ->
+  Forall (fun s => table_ok s = true) objs -> Forall (fun s => table_ok s = true) props ->
+  table_comments_ok st -> table_edges_ok st bools ->
+  load_table (spec_write_table st objs props bools) = Ok (objs, props, bools).
+Proof. exact load_table_spec_writer. Qed.
+
+(** a layout with the final '|' everywhere and no cell of width 0 satisfies [table_edges_ok] *)
+Theorem C12_table_edges_ok_wide : forall st bools,
+  (forall i, ts_bar st i = true) -> (forall i j, (1 <= ts_lpad st i j + ts_rpad st i j)%nat) ->
+  table_edges_ok st bools.
+Proof. exact table_edges_ok_wide. Qed.
+
+(** cxt: every non-empty line padded with spaces on both sides, white-space-only lines at the end *)
+Theorem C12_load_reads_spec_writer_cxt : forall st objs props bools,
+  well_formed objs props bools ->
+  Forall (fun s => cxt_ok s = true) objs -> Forall (fun s => cxt_ok s = true) props ->
+  load_cxt (spec_write_cxt st objs props bools) = Ok (objs, props, bools).
+Proof. exact load_cxt_spec_writer. Qed.
+
+(** csv (RFC 4180): any labels; every field quoted or only those that need it; any first header field;
+    both symbol sets; symbol set given or sniffed *)
+Theorem C12_load_reads_spec_writer_csv : forall quote_all as_int header0 objs props bools,
+  well_formed objs props bools ->
+  load_csv (Some as_int) (spec_write_csv quote_all as_int header0 objs props bools) = Ok (objs, props, bools)
+  /\ load_csv None (spec_write_csv quote_all as_int header0 objs props bools) = Ok (objs, props, bools).
+Proof. exact load_csv_spec_writer. Qed.
+
+(** csv, general writer: an arbitrary choice [q i j] of the fields quoted without need, the last record
+    with or without its CRLF *)
+Theorem C12_load_reads_spec_writer_csv_gen : forall q final as_int header0 objs props bools,
+  props <> [] -> Forall (fun r : list bool => r <> []) bools -> length bools = length objs ->
+  load_csv (Some as_int) (spec_write_csv_gen q final as_int header0 objs props bools) = Ok (objs, props, bools).
+Proof. exact load_csv_spec_writer_gen. Qed.
+
+Theorem C12_load_reads_spec_writer_csv_gen_auto : forall q final as_int header0 objs props bools,
+  well_formed objs props bools ->
+  load_csv None (spec_write_csv_gen q final as_int header0 objs props bools) = Ok (objs, props, bools).
+Proof. exact load_csv_spec_writer_gen_auto. Qed.
+
+(** ** Witness: liberally formatted texts
+
+    table ("ab"/"c" x "p"/"q r"):
+<<
+   | p |q r  # names
+
+# rows
+ab | X |   | 
+ c |   |X
+>>
+    (header without final '|' and with a comment; a blank line and a comment line; cells padded on both
+    sides; spaces after the final '|'; last row without final '|'; final line feed). *)
+Definition witness_table_style : table_style := {|
+  ts_lpad := fun i j => match i, j with
+                        | 0, 0 => 3 | 0, 1 => 1 | 1, 1 => 1 | 1, 2 => 2 | 2, 0 => 1 | _, _ => 0
+                        end%nat;
+  ts_rpad := fun i j => match i, j with
+                        | 0, 1 => 1 | 0, 2 => 2 | 1, 0 => 1 | 1, 1 => 1 | 1, 2 => 1 | 2, 0 => 1 | 2, 1 => 3
+                        | _, _ => 0
+                        end%nat;
+  ts_bar := fun i => Nat.eqb i 1;
+  ts_trail := fun i => if Nat.eqb i 1 then 1%nat else 0%nat;
+  ts_comment := fun i => if Nat.eqb i 0 then Some [32; 110; 97; 109; 101; 115] else None;    (* " names" *)
+  ts_fill := fun i => match i with
+                      | 1%nat => [(0%nat, None); (0%nat, Some [32; 114; 111; 119; 115])]      (* "", "# rows" *)
+                      | 3%nat => [(0%nat, None)]                                              (* final line feed *)
+                      | _ => []
+                      end |}.
+
+Example C12_witness_spec_writers :
+  let objs := [[97; 98]; [99]] in                      (* "ab", "c" *)
+  let props := [[112]; [113; 32; 114]] in              (* "p", "q r" *)
+  let bools := [[true; false]; [false; true]] in
+  let text :=
+    [32; 32; 32; 124; 32; 112; 32; 124; 113; 32; 114; 32; 32; 35; 32; 110; 97; 109; 101; 115; 10;
+     10;
+     35; 32; 114; 111; 119; 115; 10;
+     97; 98; 32; 124; 32; 88; 32; 124; 32; 32; 32; 124; 32; 10;
+     32; 99; 32; 124; 32; 32; 32; 124; 88; 10] in
+  spec_write_table witness_table_style objs props bools = text
+  /\ load_table text = Ok (objs, props, bools)
+  /\ spec_read_table text = None                          (* the strict reader insists on the final '|' *)
+  (* cxt: "B\n\n 2 \n2  \n\n ab\nc \n p  \nq r\n X. \n.X  \n\n  " *)
+  /\ (let cxt_text := [66; 10; 10; 32; 50; 32; 10; 50; 32; 32; 10; 10; 32; 97; 98; 10; 99; 32; 10;
+                       32; 112; 32; 32; 10; 113; 32; 114; 10; 32; 88; 46; 32; 10; 46; 88; 32; 32; 10;
+                       10; 32; 32] in
+      spec_write_cxt {| cx_lpad := fun i => (i mod 2)%nat; cx_rpad := fun i => (i mod 3)%nat;
+                        cx_trailer := [0%nat; 2%nat] |} objs props bools = cxt_text
+      /\ load_cxt cxt_text = Ok (objs, props, bools))
+  (* csv: "\"o\",p,q r\r\n\"a,b\",\"X\",\r\n\"c\"\"\",,\"\"" (no final CRLF, some fields quoted without need) *)
+  /\ (let csv_text := [34; 111; 34; 44; 112; 44; 113; 32; 114; 13; 10;
+                       34; 97; 44; 98; 34; 44; 34; 88; 34; 44; 13; 10;
+                       34; 99; 34; 34; 34; 44; 44; 34; 34] in
+      spec_write_csv_gen (fun i j => Nat.eqb i j) false false [111] [[97; 44; 98]; [99; 34]] props
+                         [[true; false]; [false; false]] = csv_text
+      /\ load_csv None csv_text = Ok ([[97; 44; 98]; [99; 34]], props, [[true; false]; [false; false]])).
+Proof. vm_compute. repeat split; reflexivity. Qed.
+
+(** ** [table_edges_ok] is needed: cells of width 0 at the ends of a row, a false last cell without final '|'
+
+    Each behaviour below is also the library's (checked against it): [flags.strip('|')] removes the
+    empty cells at both ends. *)
+Definition tight_table_style (bar : bool) : table_style := {|
+  ts_lpad := fun _ _ => 0%nat; ts_rpad := fun _ _ => 0%nat; ts_bar := fun _ => bar;
+  ts_trail := fun _ => 0%nat; ts_comment := fun _ => None; ts_fill := fun _ => [] |}.
+
+Example C12_boundary_table_zero_width_cells :
+  let a := [[97]] in let pq := [[112]; [113]] in
+  (* "|p|q|\na||X|": the false first cell is lost *)
+  spec_write_table (tight_table_style true) a pq [[false; true]] = [124; 112; 124; 113; 124; 10; 97; 124; 124; 88; 124]
+  /\ load_table (spec_write_table (tight_table_style true) a pq [[false; true]]) = Ok (a, pq, [[true]])
+  (* "|p|q|\na|X||": the false last cell is lost *)
+  /\ load_table (spec_write_table (tight_table_style true) a pq [[true; false]]) = Ok (a, pq, [[true]])
+  (* "|p|q|\na|||": two false cells are read as one *)
+  /\ load_table (spec_write_table (tight_table_style true) a pq [[false; false]]) = Ok (a, pq, [[false]])
+  (* "|p|q\na|X|": without final '|' the false last cell is lost (whatever its width) *)
+  /\ load_table (spec_write_table (tight_table_style false) a pq [[true; false]]) = Ok (a, pq, [[true]])
+  (* a single property: nothing is lost, "|p|\na||" *)
+  /\ load_table (spec_write_table (tight_table_style true) a [[112]] [[false]]) = Ok (a, [[112]], [[false]])
+  (* the strict reader of the specification reads all of the texts with final '|' as intended *)
+  /\ spec_read_table (spec_write_table (tight_table_style true) a pq [[false; true]]) = Some (a, pq, [[false; true]])
+  /\ spec_read_table (spec_write_table (tight_table_style true) a pq [[false; false]]) = Some (a, pq, [[false; false]]).
+Proof. vm_compute. repeat split; reflexivity. Qed.
